@@ -3,6 +3,7 @@
 package c13
 
 import (
+	"context"
 	"fmt"
 
 	"github.com/lugu/qiloop/bus"
@@ -17,7 +18,7 @@ import (
 // One symptom per execution: the failures of an execution are collected and
 // only the one with the highest priority is reported, so that one root cause
 // does not surface under a dozen fingerprints.
-var prio = []string{"subscribe-failed", "emit-error", "=event-dropped-at-cancel", "event-duplicated", "foreign-signal-delivered", "event-order", "event-lost",
+var prio = []string{"subscribe-failed", "emit-error", "=event-dropped-at-cancel", "event-duplicated", "foreign-signal-delivered", "event-order", "event-lost", "event-lost-after-ack",
 	"late-event-lost", "disturbed-by-other-unsubscribe", "event-after-cancel", "channel-not-closed", "event-after-unregister-ack"}
 
 type failure struct{ clause, detail string }
@@ -45,6 +46,7 @@ func flush() {
 }
 
 type window struct {
+	subStart    int // step at which SubscribeTick was called
 	subReturned int // step at which SubscribeTick returned (0: not yet)
 	cancelStart int // step at which the cancel function was called (0: never)
 	got         []int32
@@ -81,6 +83,7 @@ func subscribe(name string, p probe.ProbeProxy, conn ...*fx.Conn) *window {
 	if len(conn) > 0 {
 		w.conn = conn[0]
 	}
+	w.subStart = vrt.Step()
 	cancel, ch, err := p.SubscribeTick()
 	if err != nil {
 		w.err = err
@@ -156,6 +159,46 @@ func (w *window) check(name string, ems []emission) {
 			failf("event-lost/"+name, "tick(%d) was emitted entirely between the subscription's acknowledgement (step %d) and its cancellation (step %d) but was not delivered: got %v, required %v",
 				r, w.subReturned, w.cancelStart, w.got, required)
 			return
+		}
+	}
+	// wire-level rule: once the server's acknowledgement of THIS window's
+	// registerEvent call has reached the connection, every Event frame of the
+	// signal arriving there before the cancellation is asked must be handed
+	// to the subscriber (the acknowledgement may precede the return of
+	// SubscribeTick)
+	if w.conn != nil {
+		regID, ackStep := uint32(0), 0
+		for _, f := range w.conn.Out.Frames {
+			if f.Hdr.Type == net.Call && f.Hdr.Action == 0 && f.Hdr.Service == w.conn.W.ServiceID && f.Step >= w.subStart && f.Step <= w.subReturned {
+				regID = f.Hdr.ID
+			}
+		}
+		for _, f := range w.conn.In.Frames {
+			if regID != 0 && f.Hdr.Type == net.Reply && f.Hdr.Action == 0 && f.Hdr.ID == regID && f.Step >= w.subStart {
+				ackStep = f.Step
+			}
+		}
+		if ackStep != 0 {
+			for _, f := range w.conn.In.Frames {
+				if f.Hdr.Type != net.Event || f.Hdr.Action != 105 || len(f.Payload) != 4 || f.Step <= ackStep || (w.cancelStart != 0 && f.Step >= w.cancelStart) {
+					continue
+				}
+				n := int32(f.Payload[0])
+				found := false
+				for _, v := range w.got {
+					if v == n {
+						found = true
+					}
+				}
+				if !found && w.cancelStart != 0 {
+					failf("=event-dropped-at-cancel", "tick(%d) reached the subscriber's connection (step %d) after the registration was acknowledged (step %d) and before %s asked to cancel (step %d), but was dropped: got %v", n, f.Step, ackStep, name, w.cancelStart, w.got)
+					return
+				}
+				if !found {
+					failf("event-lost-after-ack/"+name, "the Event frame of tick(%d) reached the subscriber's connection at step %d, after the server's acknowledgement of the registration arrived (step %d), but was never handed to the subscriber: got %v", n, f.Step, ackStep, w.got)
+					return
+				}
+			}
 		}
 	}
 	if len(required) > 0 {
@@ -471,8 +514,53 @@ func threeRun(abrupt bool) {
 	cs[1].LogTaps("conn-S1")
 	vrt.Observe("S0=%v S1=%v S2=%v", ws[0].got, ws[1].got, ws[2].got)
 }
+// ctxCancelled: the subscription was taken through a proxy bound to a context
+// (Proxy.WithContext) and the context is done when the subscriber cancels: the
+// unregistration call fails, the cancellation must still take effect locally
+// (channel closed, nothing delivered afterwards) and the other subscriber is
+// not disturbed.
+func ctxCancelled() {
+	collected = nil
+	w := fx.Start(bus.Yes{})
+	c1, c2 := w.MustConnect(), w.MustConnect()
+	ctx, stopCtx := context.WithCancel(context.Background())
+	pA := c1.Probe(1).WithContext(ctx)
+	pB := c2.Probe(1)
+	a := subscribe("A", pA, c1)
+	b := subscribe("B", pB, c2)
+	vrt.Quiesce()
+	vrt.Explore()
+	emit := func(n int32) {
+		if err := w.Root.Helper.SignalTick(n); err != nil {
+			failf("emit-error", "emitting tick(%d) failed: %v", n, err)
+		}
+		vrt.Quiesce()
+	}
+	emit(1)
+	stopCtx()
+	a.stop()
+	vrt.Quiesce()
+	emit(2)
+	emit(3)
+	if a.err == nil {
+		if !a.closed {
+			failf("channel-not-closed/A", "the subscription channel is still open after its cancel function returned (the context of its proxy was done, so the unregistration call failed)")
+		}
+		if fmt.Sprint(a.got) != "[1]" {
+			failf("event-after-cancel/A", "subscriber A received %v; it cancelled after tick(1)", a.got)
+		}
+	}
+	if b.err == nil && fmt.Sprint(b.got) != "[1 2 3]" {
+		failf("disturbed-by-other-unsubscribe/B", "subscriber B received %v of [1 2 3] while A cancelled with a done context", b.got)
+	}
+	flush()
+	fx.Settle()
+	vrt.Observe("A=%v B=%v", a.got, b.got)
+}
 
 func init() {
+	reg.Register(&reg.Scenario{Property: "C13", Name: "cancel-with-done-context", Body: ctxCancelled, Quick: 0, Thorough: 1,
+		Doc: "A subscribes through Proxy.WithContext(ctx); ctx is cancelled, then A cancels its subscription (the unregistration call fails): A's channel is closed and silent, B on another connection gets every event"})
 	reg.Register(&reg.Scenario{Property: "C13", Name: "histories-same-client", Body: histories(true), Quick: 0, Thorough: 1,
 		Doc: "sequential: A subscribes, B subscribes, they leave in either order, C subscribes and leaves; an event after every step; two proxies of one client"})
 	reg.Register(&reg.Scenario{Property: "C13", Name: "histories-two-connections", Body: histories(false), Quick: 0, Thorough: 1,
